@@ -593,6 +593,19 @@ def subst_atom(a, mapping):
     return Poly.atom((a[0],) + new)
 
 
+def strip_apps(v, names=('copy', 'cast', 'deepcopy', 'shallowcopy', 'm:copy')):
+    """v with value-preserving wrappers (copies, casts) removed, for comparisons modulo copying."""
+    for _ in range(8):
+        mapping = {}
+        for a in value_atoms(v):
+            if a[0] == 'app' and a[1] in names and a[2] and isinstance(a[2][0], (Poly, Tup)):
+                mapping[a] = a[2][0]
+        if not mapping:
+            return v
+        v = subst_value(v, mapping)
+    return v
+
+
 # --------------------------------------------------------------------- printing
 def fmt_atom(a):
     k = a[0]
